@@ -40,6 +40,7 @@ import (
 	"github.com/consensys/gnark/verifharness/internal/adversary"
 	"github.com/consensys/gnark/verifharness/internal/circuits"
 	"github.com/consensys/gnark/verifharness/internal/hooks"
+	"github.com/consensys/gnark/verifharness/internal/scen"
 	_ "github.com/consensys/gnark/verifharness/internal/hooks/all"
 	"github.com/consensys/gnark/verifharness/internal/vcore"
 )
@@ -56,7 +57,7 @@ func TestC10(t *testing.T) {
 	if r.Thorough() {
 		cvs = curvesThorough
 	}
-	scs := scenarios()
+	scs := scen.Scenarios()
 	type job struct {
 		curve ecc.ID
 		sc    int
@@ -81,31 +82,31 @@ func TestC10(t *testing.T) {
 			"VERIF_C10_CURVE=" + j.curve.String(), "VERIF_C10_SCENARIO=" + strconv.Itoa(j.sc), "VERIF_C10_REP=" + strconv.Itoa(j.rep),
 			"GORACE=halt_on_error=0 log_path=" + filepath.Join(raceDir, tag),
 		}
-		res := r.RunChild("TestC10Child", tag, env, 25*time.Minute)
+		res := r.RunChild("TestC10Child", tag, env, 10*time.Minute)
 		r.Eval("child|"+tag, true)
 		if res.OK || (res.Merged && strings.Contains(res.Output, "race detected during execution of test")) {
 			// a child that ran to completion; race reports are collected from the race logs below
 			r.Count("children.completed", 1)
 			return
 		}
-		rep := map[string]any{"curve": j.curve.String(), "scenario": scs[j.sc].name, "output": res.Output, "log": res.LogPath, "last_case": res.LastCase}
+		rep := map[string]any{"curve": j.curve.String(), "scenario": scs[j.sc].Name, "output": res.Output, "log": res.LogPath, "last_case": res.LastCase}
 		if res.TimedOut {
 			if cls := deadlockEvidence(res.LogPath); cls != "" {
-				r.Violation("deadlock/"+sigScenario(scs[j.sc].name)+"/"+cls, "watchdog fired and the goroutine dump shows callers blocked inside gnark with nothing runnable there", rep)
+				r.Violation("deadlock/"+sigScenario(scs[j.sc].Name)+"/"+cls, "watchdog fired and the goroutine dump shows callers blocked inside gnark with nothing runnable there", rep)
 			} else {
 				r.Inconclusive("child-watchdog-without-deadlock-evidence:" + tag)
 			}
 			return
 		}
 		r.Count("children.CRASHED", 1)
-		r.Violation("process-crash/"+sigScenario(scs[j.sc].name)+"/"+crashClass(res.Output), "child process died during concurrent Solve/Prove: "+firstLine(res.LastCase), rep)
+		r.Violation("process-crash/"+sigScenario(scs[j.sc].Name)+"/"+crashClass(res.Output), "child process died during concurrent Solve/Prove: "+firstLine(res.LastCase), rep)
 	})
 	// race reports written by the children
 	races := collectRaces(raceDir)
 	r.Set("race_reports_total", races.total)
 	r.Set("race_reports_distinct", len(races.byKey))
 	for key, ex := range races.byKey {
-		if !strings.Contains(ex, "/repo/") {
+		if !hasGnarkFrame(ex) {
 			r.Count("race-reports.outside-gnark", 1)
 			t.Errorf("BROKEN-CHECK property=C10: data race report without gnark frames (harness race?): %s", key)
 			continue
@@ -164,7 +165,7 @@ func deadlockEvidence(logPath string) string {
 	blocks := strings.Split(string(b), "\n\ngoroutine ")
 	blocked, running := 0, 0
 	for _, blk := range blocks {
-		if !strings.Contains(blk, "/repo/") {
+		if !hasGnarkFrame(blk) {
 			continue
 		}
 		head := firstLine(blk)
@@ -211,7 +212,7 @@ func collectRaces(dir string) raceSet {
 				top := "?"
 				lines := strings.Split(part, "\n")
 				for i, l := range lines {
-					if strings.HasPrefix(l, "  ") && !strings.HasPrefix(l, "   ") && i+1 < len(lines) && strings.Contains(lines[i+1], "/repo/") {
+					if strings.HasPrefix(l, "  ") && !strings.HasPrefix(l, "   ") && i+1 < len(lines) && hasGnarkFrame(l) {
 						top = strings.TrimSuffix(strings.TrimSpace(l), "()")
 						top = reGeneric.ReplaceAllString(top, "")
 						top = strings.TrimPrefix(top, "github.com/consensys/gnark/")
@@ -269,7 +270,7 @@ type env struct {
 	pvk     plonk.VerifyingKey
 	full    []witness.Witness
 	pub     []witness.Witness
-	wits    []wit
+	wits    []scen.Wit
 	shared  backend.ProverOption // one option value shared by all provers
 	sopts   []solver.Option
 	seq     atomic.Int64
@@ -347,15 +348,15 @@ func TestC10Child(t *testing.T) {
 	}
 	si, _ := strconv.Atoi(os.Getenv("VERIF_C10_SCENARIO"))
 	rep, _ := strconv.Atoi(os.Getenv("VERIF_C10_REP"))
-	sc := scenarios()[si]
+	sc := scen.Scenarios()[si]
 	rng := r.Rand(fmt.Sprintf("%s/%d/%d", curve, si, rep))
 	field := curve.ScalarField()
 	e := &env{r: r, curve: curve}
 	var err error
-	if e.r1, err = frontend.Compile(field, r1cs.NewBuilder, sc.circuit()); err != nil {
+	if e.r1, err = frontend.Compile(field, r1cs.NewBuilder, sc.Circuit()); err != nil {
 		t.Fatal(err)
 	}
-	if e.sp, err = frontend.Compile(field, scs.NewBuilder, sc.circuit()); err != nil {
+	if e.sp, err = frontend.Compile(field, scs.NewBuilder, sc.Circuit()); err != nil {
 		t.Fatal(err)
 	}
 	if e.gpk, e.gvk, err = groth16.Setup(e.r1); err != nil {
@@ -369,9 +370,9 @@ func TestC10Child(t *testing.T) {
 		t.Fatal(err)
 	}
 	nW := r.Pick(6, 12)
-	e.wits = sc.witnesses(rng, field, nW)
+	e.wits = sc.Witnesses(rng, field, nW)
 	for _, w := range e.wits {
-		fw, err := frontend.NewWitness(w.assign, field)
+		fw, err := frontend.NewWitness(w.Assign, field)
 		if err != nil {
 			t.Fatal(err)
 		}
@@ -395,14 +396,14 @@ func TestC10Child(t *testing.T) {
 	// ---- phase 1: every call alone (twice: repeated solves leave no state behind)
 	ref := map[string]string{}
 	for _, c := range calls {
-		vcore.ChildCaseStart("sequential "+sc.name+" "+c.String(), nil)
+		vcore.ChildCaseStart("sequential "+sc.Name+" "+c.String(), nil)
 		o1 := e.exec(c)
 		o2 := e.exec(c)
-		r.Eval(sc.name+"|seq|"+c.String(), true)
+		r.Eval(sc.Name+"|seq|"+c.String(), true)
 		r.Count("calls.sequential", 2)
-		valid := e.wits[c.wi].valid
+		valid := e.wits[c.wi].Valid
 		if o1 != o2 {
-			r.Violation("repeated-call-differs/"+c.op, fmt.Sprintf("the same call twice in a row gave %q then %q", o1, o2), map[string]any{"scenario": sc.name, "call": c.String()})
+			r.Violation("repeated-call-differs/"+c.op, fmt.Sprintf("the same call twice in a row gave %q then %q", o1, o2), map[string]any{"scenario": sc.Name, "call": c.String()})
 		}
 		okish := strings.HasPrefix(o1, "ok:") || o1 == "proof-verifies"
 		if valid != okish {
@@ -410,7 +411,7 @@ func TestC10Child(t *testing.T) {
 			r.Inconclusive("reference-outcome-unexpected:" + c.op + ":" + o1)
 		}
 		ref[c.String()] = o1
-		r.SampleClass("reference/"+c.op, map[string]any{"scenario": sc.name, "call": c.String(), "witness": e.wits[c.wi].name, "outcome": o1})
+		r.SampleClass("reference/"+c.op, map[string]any{"scenario": sc.Name, "call": c.String(), "witness": e.wits[c.wi].Name, "outcome": o1})
 	}
 
 	// ---- phase 2: concurrent, with delays at the Yield points
@@ -486,7 +487,7 @@ func TestC10Child(t *testing.T) {
 				}
 			}()
 		}
-		vcore.ChildCaseStart(fmt.Sprintf("concurrent %s round %d N=%d", sc.name, round, N), nil)
+		vcore.ChildCaseStart(fmt.Sprintf("concurrent %s round %d N=%d", sc.Name, round, N), nil)
 		for k := range order {
 			ch <- k
 		}
@@ -496,7 +497,7 @@ func TestC10Child(t *testing.T) {
 		cwg.Wait()
 		// verdicts
 		for _, rc := range recs {
-			r.Eval(fmt.Sprintf("%s|conc%d|%s", sc.name, N, rc.c), true)
+			r.Eval(fmt.Sprintf("%s|conc%d|%s", sc.Name, N, rc.c), true)
 			r.Count("calls.concurrent", 1)
 			want := ref[rc.c.String()]
 			if rc.out != want {
@@ -504,9 +505,9 @@ func TestC10Child(t *testing.T) {
 				if strings.HasPrefix(rc.out, "PANIC:") {
 					kind = "panic-under-concurrency"
 				}
-				r.Violation(kind+"/"+sigScenario(sc.name)+"/"+rc.c.op,
+				r.Violation(kind+"/"+sigScenario(sc.Name)+"/"+rc.c.op,
 					fmt.Sprintf("%s alone gave %q, among %d concurrent callers it gave %q", rc.c, want, N, rc.out),
-					map[string]any{"scenario": sc.name, "curve": curve.String(), "call": rc.c.String(), "witness": e.wits[rc.c.wi].name, "alone": want, "concurrent": rc.out, "goroutines": N})
+					map[string]any{"scenario": sc.Name, "curve": curve.String(), "call": rc.c.String(), "witness": e.wits[rc.c.wi].Name, "alone": want, "concurrent": rc.out, "goroutines": N})
 			} else {
 				r.Count("calls.concurrent.same-as-sequential", 1)
 			}
@@ -531,12 +532,23 @@ func TestC10Child(t *testing.T) {
 	hooks.OnYield(nil)
 	for _, c := range calls {
 		o := e.exec(c)
-		r.Eval(sc.name+"|after|"+c.String(), true)
+		r.Eval(sc.Name+"|after|"+c.String(), true)
 		r.Count("calls.after-concurrency", 1)
 		if o != ref[c.String()] {
-			r.Violation("state-left-behind/"+sigScenario(sc.name)+"/"+c.op, fmt.Sprintf("%s gave %q before and %q after the concurrent phase", c, ref[c.String()], o),
-				map[string]any{"scenario": sc.name, "call": c.String()})
+			r.Violation("state-left-behind/"+sigScenario(sc.Name)+"/"+c.op, fmt.Sprintf("%s gave %q before and %q after the concurrent phase", c, ref[c.String()], o),
+				map[string]any{"scenario": sc.Name, "call": c.String()})
 		}
 	}
 	r.ExportPartial()
+}
+
+// hasGnarkFrame reports whether a stack / race report contains a frame of gnark itself
+// (by function name: the tree under test may live anywhere on disk).
+func hasGnarkFrame(s string) bool {
+	for _, l := range strings.Split(s, "\n") {
+		if strings.Contains(l, "github.com/consensys/gnark/") && !strings.Contains(l, "verifharness") {
+			return true
+		}
+	}
+	return false
 }
